@@ -747,8 +747,12 @@ func NewFilledFeatureReferences(byID *FeaturesByID) *FeatureReferencesByID {
 func (f *FeatureReferencesByID) findReferences(id b6.FeatureID, m *map[b6.Reference]bool) {
 	if references, ok := (*f)[id]; ok {
 		for _, reference := range references {
-			(*m)[reference] = true
-			f.findReferences(reference.Source(), m)
+			if !(*m)[reference] {
+				// Only follow a reference the first time it's seen, as
+				// references can form cycles (eg between relations).
+				(*m)[reference] = true
+				f.findReferences(reference.Source(), m)
+			}
 		}
 	}
 }
